@@ -66,3 +66,36 @@ def _(self: CWLLoopOutputLastStep, tag: Str) -> Token:
     # otherwise: the value of the LAST iteration (greatest numeric index)
     ensures(implies(tag in self.token_map, exists(self.token_map[tag], lambda t: result.value == t.value
                                                   and forall(self.token_map[tag], lambda u: iteration(u) <= iteration(t)))))
+
+
+# ---- resuming a loop after a failure: the iteration counters are restored from the tags of the lost tokens ----------------------
+cls("LoopCombinator", iteration_map=Dict[Str, Int])
+
+
+@pure
+def entries(from_tags: ODict[Str, Tuple[Str, Str]]) -> List[Tuple[Str, Str]]:
+    return list(from_tags.values())
+
+
+@pure
+def resume_at(e: Tuple[Str, Str]) -> Int:
+    # the iteration to resume from is the NUMERIC value of the last component of the second tag (iteration 12 of instance 0.3 is "0.3.12")
+    return int(e[1].split(".")[-1])
+
+
+@contract("streamflow/workflow/combinator.py", "LoopCombinator.restore")
+def _(self: LoopCombinator, from_tags: ODict[Str, Tuple[Str, Str]]):
+    requires(forall(entries(from_tags), lambda e: parses_int(e[1].split(".")[-1])))
+    assigns(self.iteration_map)
+    ghost("es", entries(from_tags))
+    # every loop instance named in the request resumes at (at least) the requested iteration ...
+    ensures(forall(range(0, len(es)), lambda j: es[j][0] in self.iteration_map and self.iteration_map[es[j][0]] >= resume_at(es[j])))
+    # ... and at nothing invented: a counter keeps its old value or takes one of the requested iterations of its instance
+    ensures(forall(self.iteration_map, lambda p: (old(p in self.iteration_map) and self.iteration_map[p] == old(self.iteration_map[p]))
+                   or exists(range(0, len(es)), lambda j: es[j][0] == p and self.iteration_map[p] == resume_at(es[j]))))
+    # counters of other instances are kept, and no counter goes backwards
+    ensures(forall(Str, lambda p: implies(old(p in self.iteration_map), p in self.iteration_map and self.iteration_map[p] >= old(self.iteration_map[p]))))
+    invariant(0, forall(range(0, i), lambda j: es[j][0] in self.iteration_map and self.iteration_map[es[j][0]] >= resume_at(es[j])), index="i")
+    invariant(0, forall(self.iteration_map, lambda p: (old(p in self.iteration_map) and self.iteration_map[p] == old(self.iteration_map[p]))
+                        or exists(range(0, i), lambda j: es[j][0] == p and self.iteration_map[p] == resume_at(es[j]))))
+    invariant(0, forall(Str, lambda p: implies(old(p in self.iteration_map), p in self.iteration_map and self.iteration_map[p] >= old(self.iteration_map[p]))))
